@@ -224,3 +224,99 @@ def rule_modguard(ctx, prop: str) -> RuleResult:
         res.add(Finding("MODGUARD", S, funcs[0].lineno, "_DoNormalize.index_start", "two-sided-guards", f"only {n_two} two-sided range guards remain in the div/mod simplifications (3 needed: two in division, one in modulo)"))
     res.floor = 4
     return res
+
+
+def rule_divaccount(ctx, prop: str) -> RuleResult:
+    """Accounting of the constant term in `(C + D + N) / d` (D: terms divisible by d, N: the
+    rest).  The quotient may be split only around an expression X with 0 <= X < d; what is
+    returned must be ((C + D + N) - X) / d.  So: X = N (constant left out, legal when
+    d | C) gives constant C // d; X = C + N (constant counted in the remainder) gives
+    constant 0.  Any other pairing counts the constant twice or not at all."""
+    ix = ctx.ix
+    res = RuleResult("DIVACCOUNT")
+    m = ix.module(S)
+    f = m.funcs.get("_DoNormalize.index_start.division_simplification")
+    if f is None:
+        raise AnalysisError("anchor vanished: _DoNormalize.index_start.division_simplification")
+    res.analysed.append(f"{S}:{f.qualname}")
+    from .. import pat
+
+    # the (constant, terms) pair of the normalised numerator
+    m0 = pat.find("_M_c, _M_l = get_normalized_expr(_M_e.lhs)", f.node)
+    m1 = pat.find("_M_d = _M_e.rhs.val", f.node)
+    if not m0 or not m1:
+        raise AnalysisError("anchor vanished: numerator/denominator bindings of division_simplification")
+    C = ast.unparse(m0[1]["_M_c"])
+    D = ast.unparse(m1[1]["_M_d"])
+
+    def const_form(e: ast.AST) -> Optional[str]:
+        t = ast.unparse(e)
+        if t == C:
+            return "C"
+        if t == f"{C}.update(val=0)":
+            return "0"
+        if t == f"{C}.update(val={C}.val // {D})":
+            return "C//d"
+        return None
+
+    def defs_of(name: str, before: int) -> Optional[ast.AST]:
+        best = None
+        for n in f.body_nodes():
+            if isinstance(n, ast.Assign) and len(n.targets) == 1 and isinstance(n.targets[0], ast.Name) and n.targets[0].id == name and n.lineno < before:
+                if best is None or n.lineno > best.lineno:
+                    best = n
+        return best.value if best is not None else None
+
+    def enclosing_ifs(n: ast.AST) -> List[Tuple[ast.If, bool]]:
+        out = []
+        c = n
+        p = parent(c)
+        while p is not None and p is not f.node:
+            if isinstance(p, ast.If):
+                out.append((p, c in p.body))
+            c, p = p, parent(p)
+        return out
+
+    rets = [n for n in f.body_nodes() if isinstance(n, ast.Return) and isinstance(n.value, ast.Call) and last_name(n.value) == "generate_loopIR" and len(n.value.args) == 3]
+    for r in rets:
+        res.instances += 1
+        res.nontrivial += 1
+        k = const_form(r.value.args[1])
+        guard = None
+        for iff, in_body in enclosing_ifs(r):
+            t = iff.test
+            if in_body and isinstance(t, ast.Call) and isinstance(t.func, ast.Attribute) and t.func.attr == "check_expr_bounds" and len(t.args) == 5:
+                guard = t
+        conds = " and ".join(ast.unparse(i.test) if b else f"not ({ast.unparse(i.test)})" for i, b in enclosing_ifs(r))
+        if guard is None:
+            # no remainder expression: every term is divisible, the constant is floor-divided
+            ok = k == "C//d"
+            res.ob(ok)
+            res.sample(f"{f.qualname}: no remainder, constant {k}: {ok}")
+            if not ok:
+                res.add(Finding("DIVACCOUNT", S, r.lineno, f.qualname, "all-divisible", f"with every term divisible by {D} the quotient's constant must be {C}.val // {D} (found `{ast.unparse(r.value.args[1])}`)"))
+            continue
+        x = guard.args[2]
+        xdef = defs_of(x.id, guard.lineno) if isinstance(x, ast.Name) else x
+        if not (isinstance(xdef, ast.Call) and last_name(xdef) == "generate_loopIR" and len(xdef.args) == 3):
+            raise AnalysisError(f"{f.qualname}:{guard.lineno}: cannot resolve the bounded remainder expression `{ast.unparse(x)}`")
+        kx = const_form(xdef.args[1])
+        if k is None or kx is None:
+            raise AnalysisError(f"{f.qualname}:{r.lineno}: unrecognised constant form `{ast.unparse(r.value.args[1])}` / `{ast.unparse(xdef.args[1])}`")
+        if kx == "0":
+            # the constant was left out of the remainder: needs d | C on this path, result C // d
+            ok = k == "C//d" and f"{C}.val % {D} == 0" in conds
+        elif kx == "C":
+            ok = k == "0"
+        else:
+            ok = False
+        res.ob(ok)
+        res.sample(f"{f.qualname}:{r.lineno}: remainder constant {kx}, quotient constant {k}, path `{conds[:80]}`: {ok}")
+        if not ok:
+            res.add(
+                Finding("DIVACCOUNT", S, r.lineno, f.qualname, f"remainder={kx},quotient={k}",
+                        f"(C + D + N) / {D} is split around a remainder whose constant part is {kx} but the quotient is given the constant {k}: "
+                        f"the constant is counted {'twice' if kx == 'C' else 'wrongly'} — e.g. (4*io + ii - 1) / 4 with ii in [1,5) becomes io - 1")
+            )
+    res.floor = 3
+    return res
